@@ -61,6 +61,11 @@ def _strategy(draw):
                                     "structured", "orderbook", "multi"]))
         a = gen.draw_any(draw, cx, cls, "a%d" % i)
         a["naive"] = True
+        if a["type"] == "structured" and draw(st.booleans()):
+            a["start"], a["end"] = draw(st.integers(0, 1)), draw(st.integers(T0 - 2, T0))   # both ends clip the inner assets
+            for x in a["assets"]:
+                if draw(st.booleans()):
+                    x["start"], x["end"] = draw(st.integers(-1, 1)), draw(st.integers(T0 - 1, T0 + 1))
         if a["type"] in ("chp", "plant") and draw(st.booleans()):
             # start / shutdown profiles without ramp_freq: interpreted in the main time unit of the grid at hand
             a["min_cap"] = max(a["min_cap"], 0.25 * a["max_cap"])
